@@ -54,7 +54,9 @@ TheEnv == [hosts |-> [h \in Hosts |-> [name |-> h]], nss |-> [x \in {"ns"} |-> [
            pools |-> ThePools,
            rsv |-> IF RsvLast THEN << [a |-> <<10, 0, 0, BSize - 1>>, n |-> 32] >> ELSE << >>,
            cfg |-> [strict |-> Strict, maxb |-> MaxB, cool |-> Cool],
-           ct |-> [x \in {"_"} |-> <<"_">>], slack |-> 0, mode |-> "conc"]
+           ct |-> [x \in {"_"} |-> <<"_">>], slack |-> 0,
+           \* the block cap is only guaranteed when no two clients share a host (P_IPAM checks it in mode "seq")
+           mode |-> IF \A c1, c2 \in Clients : c1 # c2 => HostOf[c1] # HostOf[c2] THEN "seq" ELSE "conc"]
 Addrs == { NthAddr(BCidr(i), o) : i \in BIdx, o \in 0..(BSize - 1) }
 BlockOfAddr(a) == CHOOSE i \in BIdx : ContainsAddr(BCidr(i), a)
 
